@@ -46,6 +46,13 @@ Proof. destruct (bytes_eqb_spec a a); congruence. Qed.
 Lemma bytes_eqb_neq a b : a <> b -> bytes_eqb a b = false.
 Proof. destruct (bytes_eqb_spec a b); congruence. Qed.
 
+Lemma skipn_skipn_ {A} (x y : nat) (l : list A) : skipn x (skipn y l) = skipn (x + y) l.
+Proof.
+  revert l. induction y as [|y IH]; intro l.
+  - now rewrite Nat.add_0_r.
+  - rewrite Nat.add_succ_r. destruct l as [|a l]; [now rewrite !skipn_nil|]. cbn [skipn]. apply IH.
+Qed.
+
 Lemma split_tail (c t : list byte) :
   length t = 16%nat ->
   firstn (length (c ++ t) - 16) (c ++ t) = c /\ skipn (length (c ++ t) - 16) (c ++ t) = t.
@@ -280,23 +287,115 @@ Section Keystore.
       injection Heq as Heq. auto.
   Qed.
 
+  (* ---- the exact acceptance condition of Decrypt ---- *)
+  (* an input of at least nonce + tag bytes (and within gcm.Open's size limit) is accepted
+     exactly when its last 16 bytes are the tag of what lies between the nonce and them; the
+     result is then the CTR decryption of that part *)
+  Lemma decrypt_spec pw data :
+    (28 <= length data)%nat -> N.of_nat (length data) <= max_plain + 28 ->
+    decrypt cipher pw data =
+      let K := cipher (key_of pw) in
+      let nonce := firstn 12 data in
+      let c := firstn (length data - 28) (skipn 12 data) in
+      if bytes_eqb (tag K nonce c) (skipn (length data - 16) data) then Ok (ctr K nonce c) else Err 1.
+  Proof.
+    intros H28 Hmax. cbv zeta. unfold decrypt, decrypt_k.
+    destruct (Nat.ltb_spec (length data) 12) as [|H12]; [lia|].
+    unfold open. rewrite firstn_length, Nat.min_l by lia. cbn [Nat.eqb negb].
+    rewrite skipn_length.
+    destruct (Nat.ltb_spec (length data - 12) 16) as [|_]; [lia|].
+    destruct (N.ltb_spec (max_plain + 16) (N.of_nat (length data - 12))) as [|_]; [lia|].
+    replace (length data - 12 - 16)%nat with (length data - 28)%nat by lia.
+    rewrite skipn_skipn_.
+    replace (length data - 28 + 12)%nat with (length data - 16)%nat by lia.
+    reflexivity.
+  Qed.
+
+  Lemma decrypt_oversize pw data :
+    max_plain + 28 < N.of_nat (length data) -> decrypt cipher pw data = Err 1.
+  Proof.
+    intro H. unfold decrypt, decrypt_k. unfold max_plain in H.
+    destruct (Nat.ltb_spec (length data) 12) as [|H12]; [lia|].
+    unfold open. rewrite firstn_length, Nat.min_l by lia. cbn [Nat.eqb negb].
+    rewrite skipn_length.
+    destruct (Nat.ltb_spec (length data - 12) 16) as [|_]; [reflexivity|].
+    destruct (N.ltb_spec (max_plain + 16) (N.of_nat (length data - 12))) as [|Hc]; [reflexivity|].
+    unfold max_plain in Hc. lia.
+  Qed.
+
+  (* a stored ciphertext under another password: accepted exactly when the tag of the stored
+     body under the other key equals the stored tag (a collision of the two GHASH tags) *)
+  Lemma decrypt_other_password pw pw' nonce msg ct :
+    encrypt cipher pw nonce msg = Ok ct ->
+    decrypt cipher pw' ct =
+      let c := ctr (cipher (key_of pw)) nonce msg in
+      if bytes_eqb (tag (cipher (key_of pw')) nonce c) (tag (cipher (key_of pw)) nonce c)
+      then Ok (ctr (cipher (key_of pw')) nonce c) else Err 1.
+  Proof.
+    intro H. apply encrypt_inv in H as (Hn & Hm & ->). cbv zeta.
+    set (K := cipher (key_of pw)). set (K' := cipher (key_of pw')).
+    unfold seal_body. set (c := ctr K nonce msg).
+    unfold decrypt, decrypt_k. fold K'.
+    destruct (split_nonce nonce (c ++ tag K nonce c) Hn) as (-> & -> & ->).
+    unfold open. rewrite Hn. cbn [Nat.eqb negb].
+    pose proof (tag_length K nonce c) as Ht.
+    assert (Hc : length c = length msg) by apply ctr_length.
+    destruct (Nat.ltb_spec (length (c ++ tag K nonce c)) 16) as [Hl|_].
+    { rewrite app_length in Hl. lia. }
+    destruct (N.ltb_spec (max_plain + 16) (N.of_nat (length (c ++ tag K nonce c)))) as [Hl|_].
+    { rewrite app_length in Hl. lia. }
+    destruct (split_tail c (tag K nonce c) Ht) as [-> ->]. reflexivity.
+  Qed.
+
   (* ---- private keys ---- *)
   Lemma be_bytes_be_val (b : list byte) : be_bytes (length b) (be_val b) = b.
   Proof.
     unfold be_bytes. rewrite <- le_val_rev, <- (rev_length b), le_bytes_le_val. apply rev_involutive.
   Qed.
 
+  (* the key lengths the statements depend on, tied to the Go constants *)
+  Example gen_ed_len : Gen.ed25519_private_key_length = 64%Z. Proof. reflexivity. Qed.
+  Example gen_sr_len : Gen.sr25519_private_key_length = 32%Z. Proof. reflexivity. Qed.
+  Example gen_secp_len : Gen.secp256k1_private_key_length = 32%Z. Proof. reflexivity. Qed.
+  Lemma ed_len_eq : ed_len = 64%nat. Proof. reflexivity. Qed.
+  Lemma sr_len_eq : sr_len = 32%nat. Proof. reflexivity. Qed.
+  Lemma secp_len_eq : secp_len = 32%nat. Proof. reflexivity. Qed.
+
   Lemma decode_valid s k : valid_key s k = true -> decode_private_key s k = Ok k.
   Proof.
     destruct s; cbn [valid_key decode_private_key].
     - intros ->. reflexivity.
     - intros ->. reflexivity.
-    - intro H. apply andb_prop in H as [H H3]. apply andb_prop in H as [H1 H2].
-      rewrite H1. apply Nat.eqb_eq in H1.
-      destruct (N.eqb_spec (be_val k) 0) as [|_]; [discriminate|].
-      destruct (N.leb_spec secp_n (be_val k)) as [Hle|_].
-      + apply N.ltb_lt in H3. lia.
-      + cbn [orb]. rewrite <- H1. now rewrite be_bytes_be_val.
+    - intro H. apply andb_prop in H as [H1 H2].
+      rewrite H1, H2. apply Nat.eqb_eq in H1. rewrite secp_len_eq in H1.
+      rewrite <- H1. now rewrite be_bytes_be_val.
+  Qed.
+
+  (* what the decoder accepts is the encoding of a key of the scheme, returned unchanged *)
+  Lemma decode_ok_valid s b k : decode_private_key s b = Ok k -> k = b /\ valid_key s b = true.
+  Proof.
+    destruct s; cbn [valid_key decode_private_key].
+    - destruct (length b =? ed_len)%nat; [|discriminate]. intro H; injection H as <-. auto.
+    - destruct (length b =? sr_len)%nat; [|discriminate]. intro H; injection H as <-. auto.
+    - destruct (Nat.eqb_spec (length b) secp_len) as [Hl|]; [|discriminate].
+      destruct (secp_scalar_ok (be_val b)); [|discriminate].
+      intro H; injection H as <-. rewrite secp_len_eq in Hl. rewrite <- Hl.
+      now rewrite be_bytes_be_val.
+  Qed.
+
+  Lemma decode_invalid s b : valid_key s b = false -> exists c, decode_private_key s b = Err c.
+  Proof.
+    destruct s; cbn [valid_key decode_private_key].
+    - intros ->. eauto.
+    - intros ->. eauto.
+    - destruct (length b =? secp_len)%nat; cbn [andb]; [|eauto]. intros ->. eauto.
+  Qed.
+
+  Lemma decode_total s b : decode_private_key s b <> Panic /\ decode_private_key s b <> OutOfFuel.
+  Proof.
+    destruct (valid_key s b) eqn:Hv.
+    - rewrite (decode_valid _ _ Hv). split; discriminate.
+    - destruct (decode_invalid _ _ Hv) as [c ->]. split; discriminate.
   Qed.
 
   Lemma key_roundtrip s pw nonce k ct :
@@ -311,9 +410,82 @@ Section Keystore.
   Lemma valid_key_short s k : valid_key s k = true -> N.of_nat (length k) <= max_plain.
   Proof.
     unfold max_plain. destruct s; cbn [valid_key]; intro H.
-    - apply Nat.eqb_eq in H. lia.
-    - apply Nat.eqb_eq in H. lia.
-    - apply andb_prop in H as [H _]. apply andb_prop in H as [H _]. apply Nat.eqb_eq in H. lia.
+    - apply Nat.eqb_eq in H. rewrite ed_len_eq in H. lia.
+    - apply Nat.eqb_eq in H. rewrite sr_len_eq in H. lia.
+    - apply andb_prop in H as [H _]. apply Nat.eqb_eq in H. rewrite secp_len_eq in H. lia.
+  Qed.
+
+  (* DecryptPrivateKey never crashes, whatever the bytes, the password and the scheme *)
+  Lemma decrypt_private_key_total pw data s :
+    decrypt_private_key cipher pw data s <> Panic /\ decrypt_private_key cipher pw data s <> OutOfFuel.
+  Proof.
+    unfold decrypt_private_key, decrypt_private_key_k. fold (decrypt cipher pw data).
+    pose proof (decrypt_total pw data) as [H1 H2].
+    destruct (decrypt cipher pw data) as [p| | |]; cbn [obind]; try (split; congruence).
+    apply decode_total.
+  Qed.
+
+  (* whatever key DecryptPrivateKey returns, the input is byte for byte the EncryptPrivateKey
+     output for exactly that key (under the password-derived key and the nonce the input
+     starts with) *)
+  Lemma decrypt_private_key_genuine pw data s k :
+    decrypt_private_key cipher pw data s = Ok k ->
+    valid_key s k = true /\ encrypt_private_key cipher pw (firstn 12 data) k = Ok data.
+  Proof.
+    unfold decrypt_private_key, decrypt_private_key_k, encrypt_private_key. fold (decrypt cipher pw data).
+    destruct (decrypt cipher pw data) as [p| | |] eqn:Hd; cbn [obind]; try discriminate.
+    intro H. apply decode_ok_valid in H as [-> Hv]. split; [assumption|].
+    now apply decrypt_ok_genuine.
+  Qed.
+
+  (* a genuine ciphertext whose plaintext is not the encoding of a key of the scheme is refused *)
+  Lemma non_key_refused s pw nonce raw ct :
+    valid_key s raw = false -> encrypt cipher pw nonce raw = Ok ct ->
+    exists c, decrypt_private_key cipher pw ct s = Err c.
+  Proof.
+    intros Hv H. unfold decrypt_private_key, decrypt_private_key_k. fold (decrypt cipher pw ct).
+    rewrite (decrypt_encrypt _ _ _ _ H). cbn [obind]. now apply decode_invalid.
+  Qed.
+
+  (* ---- the key decoder before the repair ---- *)
+  Lemma decode_prefix_panic_iff s b :
+    decode_private_key_prefix s b = Panic <->
+    s = Secp256k1 /\ length b = 32%nat /\ secp_scalar_ok (be_val b) = false.
+  Proof.
+    split.
+    - destruct s; cbn [decode_private_key_prefix decode_private_key].
+      + destruct (length b =? ed_len)%nat; discriminate.
+      + destruct (length b =? sr_len)%nat; discriminate.
+      + destruct (Nat.eqb_spec (length b) secp_len) as [Hl|]; [|discriminate].
+        destruct (secp_scalar_ok (be_val b)); [discriminate|]. auto.
+    - intros (-> & Hl & Hs). cbn [decode_private_key_prefix].
+      rewrite Hl, Hs. reflexivity.
+  Qed.
+
+  Lemma decode_prefix_agrees s b :
+    decode_private_key_prefix s b <> Panic -> decode_private_key_prefix s b = decode_private_key s b.
+  Proof.
+    destruct s; cbn [decode_private_key_prefix decode_private_key]; try reflexivity.
+    destruct (length b =? secp_len)%nat; [|reflexivity].
+    destruct (secp_scalar_ok (be_val b)); [reflexivity | congruence].
+  Qed.
+
+  Lemma zero_scalar_bad : secp_scalar_ok (be_val (zeros 32)) = false.
+  Proof. rewrite be_val_zeros. reflexivity. Qed.
+
+  (* the crash is reachable through DecryptPrivateKey: the genuine ciphertext of 32 zero bytes *)
+  Lemma decrypt_private_key_unchecked_panics pw nonce :
+    length nonce = 12%nat ->
+    exists ct, encrypt cipher pw nonce (zeros 32) = Ok ct /\
+               decrypt_private_key_unchecked cipher pw ct Secp256k1 = Panic.
+  Proof.
+    intro Hn.
+    assert (Hm : N.of_nat (length (zeros 32)) <= max_plain) by (unfold max_plain; cbn; lia).
+    pose proof (encrypt_ok pw nonce (zeros 32) Hn Hm) as H.
+    eexists. split; [exact H|].
+    unfold decrypt_private_key_unchecked, decrypt_private_key_unchecked_k. fold (decrypt cipher pw (nonce ++ seal_body (cipher (key_of pw)) nonce (zeros 32))).
+    rewrite (decrypt_encrypt _ _ _ _ H). cbn [obind].
+    apply decode_prefix_panic_iff. split; [reflexivity|]. split; [reflexivity | apply zero_scalar_bad].
   Qed.
 
   (* ---- the pinned tree ---- *)
@@ -327,3 +499,31 @@ Section Keystore.
     destruct (Nat.ltb_spec (length data) 12); [lia | reflexivity].
   Qed.
 End Keystore.
+
+(* ---- the statements of Properties.v that combine several of the lemmas above ---- *)
+Lemma roundtrip_full : forall cipher pw nonce msg,
+  length nonce = 12%nat -> N.of_nat (length msg) <= max_plain ->
+  exists ct, encrypt cipher pw nonce msg = Ok ct
+          /\ length ct = (12 + length msg + 16)%nat
+          /\ firstn 12 ct = nonce
+          /\ decrypt cipher pw ct = Ok msg.
+Proof.
+  intros cipher pw nonce msg Hn Hm.
+  exists (nonce ++ seal_body (cipher (key_of pw)) nonce msg).
+  pose proof (encrypt_ok cipher pw nonce msg Hn Hm) as H.
+  repeat split.
+  - exact H.
+  - exact (encrypt_length cipher _ _ _ _ H).
+  - exact (proj1 (proj2 (split_nonce cipher nonce _ Hn))).
+  - exact (decrypt_encrypt cipher _ _ _ _ H).
+Qed.
+
+Lemma key_roundtrip_full : forall cipher s pw nonce k,
+  valid_key s k = true -> length nonce = 12%nat ->
+  exists ct, encrypt_private_key cipher pw nonce k = Ok ct
+          /\ decrypt_private_key cipher pw ct s = Ok k.
+Proof.
+  intros cipher s pw nonce k Hv Hn.
+  pose proof (encrypt_ok cipher pw nonce k Hn (valid_key_short cipher s k Hv)) as H.
+  eexists. split; [exact H|]. exact (key_roundtrip cipher s pw nonce k _ Hv H).
+Qed.
